@@ -109,7 +109,9 @@ func (g *gen) stringRules(f *Field) {
 	case 2:
 		pool := []string{"active", "inactive", "pending", "a b", "ünï", ""}
 		if !g.avoid("rules_untagged_yaml_scalars") {
-			pool = append(pool, "123", "true", "null", "1e3", "~", "0x10", "no", "1.5")
+			pool = append(pool, "123", "true", "null", "1e3", "~", "0x10", "no", "1.5",
+				"yes", "on", "Off", "Y", ".inf", ".NaN", "0o14", "1_000", "12:30:45", "2001-12-14", "<<", "=", "- x", "a: b", "#c", "'q'", "\"dq\"",
+				" lead", "trail ", "multi\nline", "@at", "`bt`", "!tag", "&anchor", "*alias", "%dir", "[x]", "{y}", "|", ">", "?", "-", "010", "+1", "TRUE", "Null")
 		}
 		n := g.intn(1, 4, "nin")
 		seen := map[string]bool{}
@@ -124,7 +126,7 @@ func (g *gen) stringRules(f *Field) {
 	case 3:
 		pool := []string{"fixed", "a b", "ünï"}
 		if !g.avoid("rules_untagged_yaml_scalars") {
-			pool = append(pool, "123", "true", "null", "1e3")
+			pool = append(pool, "123", "true", "null", "1e3", "no", "on", ".inf", "0o14", "1_000", "12:30:45", "2001-12-14", "<<", "a: b", "#c", " lead", "multi\nline", "*alias", "010")
 		}
 		v := pick(g, pool, "constval")
 		r.StrConst = &v
